@@ -40,13 +40,6 @@ var c18Mesgs = map[byte][]uint16{
 	34: {142, 142, 150, 148},
 }
 
-// shadow tracks the library's process-lifetime distance accumulator as the
-// listed defects F5 (state survives files) and F6 (8-bit shift) predict it.
-var shadow struct {
-	acc, last uint32
-	unknown   bool
-}
-
 func c18Opts(rng *lib.Rand, ft byte) lib.GenOpts {
 	return lib.GenOpts{
 		FileType:  ft,
@@ -110,12 +103,12 @@ func c18Case(c *lib.Ctx, idx uint64) {
 		c.Eval()
 		if out.Panicked || out.Hang {
 			c.Violation(b, "Decode panicked/hung: %s\n%s", out.Panic, out.Stack)
-			shadow.unknown = true
+			lib.ShadowUnknown()
 			return
 		}
 		if derr != nil {
 			c.Violation(b, "Decode rejected a well-formed stream: %v", derr)
-			shadow.unknown = true
+			lib.ShadowUnknown()
 			return
 		}
 		if !c18Compare(c, p, f, b) {
@@ -130,12 +123,12 @@ func c18Case(c *lib.Ctx, idx uint64) {
 	c.Eval()
 	if out.Panicked || out.Hang {
 		c.Violation(chain, "DecodeChained panicked/hung: %s", out.Panic)
-		shadow.unknown = true
+		lib.ShadowUnknown()
 		return
 	}
 	if cerr != nil || len(files) != len(plans) {
 		c.Violation(chain, "DecodeChained over %d well-formed files returned %d files, error %v", len(plans), len(files), cerr)
-		shadow.unknown = true
+		lib.ShadowUnknown()
 		return
 	}
 	for i, p := range plans {
@@ -185,44 +178,29 @@ func c18Compare(c *lib.Ctx, p *ref.Plan, f *fit.File, input []byte) bool {
 	}
 	diffs := lib.CompareContent(ex.Content, got, lib.CompareOpts{Header: false, Skip: skip})
 
-	// Predict what the listed defects make of the accumulated destinations.
+	// What the listed defects make of the accumulated destinations.
 	dist, cyc, pow := prof.Field(ref.MesgRecord, 5), prof.Field(ref.MesgRecord, 19), prof.Field(ref.MesgRecord, 29)
-	type pred struct{ distP56, distP6 uint32 }
-	preds := map[key]pred{}
-	var perFile struct{ acc, last uint32 }
-	for i := range ex.Meta {
-		m := &ex.Meta[i]
-		if !m.Hosted || m.Global != ref.MesgRecord || !m.Comp.CSD {
-			continue
-		}
-		b1, b2 := uint32(m.Comp.CSDRaw[1]), uint32(m.Comp.CSDRaw[2])
-		v := b1>>4 | uint32(uint8(b2<<4)) // F6: the shift happens in 8 bits
-		perFile.acc += (v - perFile.last) & 0xFFF
-		perFile.last = v
-		shadow.acc += (v - shadow.last) & 0xFFF
-		shadow.last = v
-		preds[key{m.Slot, m.Index}] = pred{distP56: shadow.acc, distP6: perFile.acc}
-	}
+	preds := lib.TrackFile(f)
 	ok := true
 	for _, d := range diffs {
 		k := key{d.Slot, d.Index}
 		m := metaBy[k]
-		if d.Global == ref.MesgRecord && m != nil && d.Sindex >= 0 {
+		if d.Global == ref.MesgRecord && m != nil && d.Sindex >= 0 && d.Slot == "Records" {
 			switch {
-			case dist != nil && d.Sindex == dist.Sindex && m.Comp.CSD && d.GotV.K == 'u':
-				pr := preds[k]
-				if shadow.unknown {
-					// Resynchronise on the observed value; only the increments can be judged.
-					shadow.acc = uint32(d.GotV.N)
-					shadow.unknown = false
+			case dist != nil && d.Sindex == dist.Sindex && m.Comp.CSD && d.GotV.K == 'u' && d.Index < len(preds):
+				pr := preds[d.Index]
+				if lib.ShadowIsUnknown() {
+					// Resynchronise on the observed value; only later increments can be judged.
+					lib.ShadowResync(uint32(d.GotV.N), uint32(pr.Raw[1])>>4|uint32(uint8(pr.Raw[2]<<4)))
 					c.Count("distance_resync", 1)
 					continue
 				}
-				if uint32(d.GotV.N) == pr.distP56 {
-					if pr.distP6 != uint32(d.ExpV.N) {
-						c.Known("F6", input, "record.distance from compressed_speed_distance % x: expected %s, got %s = value with the high nibble of the 12-bit distance lost", m.Comp.CSDRaw[:], d.Exp, d.Got)
+				class, f5, f6 := lib.ClassifyDistance(uint32(d.GotV.N), pr)
+				if class == "known" {
+					if f6 {
+						c.Known("F6", input, "record.distance from compressed_speed_distance % x: expected %s, got %s = value with the high nibble of the 12-bit distance lost", pr.Raw[:], d.Exp, d.Got)
 					}
-					if pr.distP56 != pr.distP6 {
+					if f5 {
 						c.Known("F5", input, "record.distance: expected %s (accumulated since the start of this file), got %s = accumulation continued from earlier files of the process", d.Exp, d.Got)
 					}
 					continue
@@ -237,7 +215,6 @@ func c18Compare(c *lib.Ctx, p *ref.Plan, f *fit.File, input []byte) bool {
 		}
 		ok = false
 		c.Violation(input, "component expansion differs from the profile's rule: %s", d.String())
-		shadow.unknown = true
 		break
 	}
 	// If distance matched the reference exactly (no diff), the shadow is still right only if it equals the reference; keep it as computed.
